@@ -449,6 +449,13 @@ def api_exports(ctx, cna, segs, c, sub, cnr=None, op_suffix="@api"):
         report(ctx, op, M.check_bed(got, segs, mc, show), {**sub, "show": show})
     got = ctx.call(lambda: EXP.export_vcf(cna, c["ploidy"], c["male_ref"], c["genome"], c["female"], None, cnr))
     op = "vcf" + op_suffix
+    # the same table object once more after the four exports above: the listing must still be the one the model expects
+    again = ctx.call(lambda: bed_rows_of(EXP.export_bed(cna, c["ploidy"], c["male_ref"], c["genome"], c["female"], "lab", "variant")))
+    if isinstance(again, Exc):
+        ctx.violation("export bed returns the listing", f"bed.variant{op_suffix}/again/raises/{again.key}", observed=again, sub={**sub, "show": "variant", "history": "bed x3, vcf, bed"})
+    else:
+        ctx.trace()
+        report(ctx, f"bed.variant{op_suffix}/again", M.check_bed(again, segs, mc, "variant"), {**sub, "show": "variant", "history": "bed x3, vcf, bed"})
     if isinstance(got, Exc):
         ctx.violation("export vcf returns the records", f"{op}/raises/{got.key}", observed=got, sub=sub)
         return False
